@@ -519,7 +519,7 @@ def generate(prop, seed, tier):
     kn = rng.stream(seed, 'knobs')
     thorough = tier == 'thorough'
     m = r.randint(1, 6)
-    nruns = r.choice([1, 1, 1, 2, 3])
+    nruns = r.choice([1, 1, 1, 2, 3] + ([4, 5] if thorough else []))
     sets = [[_w(r, [(r.randint(1, 8), 3), (r.randint(9, 30), 3), (r.randint(31, 60), 1)]) for _ in range(2)] for _ in range(nruns)]
     rule = _w(r, [(r.randint(1, 4), 4), (r.randint(5, 12), 3), (r.randint(13, 70), 1), (r.choice([1e-5, 5e-5]), 0.7), ([[0, 3], [4, 7]], 0.7)])
     frame = r.choice([None, None, ['slice', 0, max(1, m - 1), None], ['list', [m - 1, 0]], ['range', 0, m, 2]])
@@ -533,7 +533,7 @@ def generate(prop, seed, tier):
            'granularity': 'line' if (not thorough or sr.random() < 0.85) else 'call',
            'workers': [kn.choice([1, 1, 2, 16]), kn.choice([1, 1, 2, 16])],
            'rule_flip': None, 'stall': None, 'faults': []}
-    npol = 4 if not faulty else 2
+    npol = (4 if not faulty else 2) + (2 if thorough else 0)
     names = sr.sample(POLICIES, npol)
     if faulty and 'pfu' not in names and sr.random() < 0.5:
         names[-1] = 'pfu'
